@@ -14,6 +14,7 @@ import sys
 
 counters: dict = {}
 _installed = set()
+shadow_enabled = [True]  # cache shadows compare only while the harness is single-threaded
 
 
 def _guard():
@@ -129,6 +130,8 @@ def install_cache_shadows():
         @functools.wraps(raw)
         def checked(*a, **kw):
             got = cached(*a, **kw)
+            if not shadow_enabled[0]:
+                return got
             _bump(f"cache:{name}")
             try:
                 want = raw(*a, **kw)
